@@ -224,6 +224,8 @@ func ModelMsg(m *Msg) *MsgInfo {
 						out = append(out, phItem{base: tagBase(p.Text), ident: "tag:" + p.Text, tag: p.Text})
 					}
 				}
+			case *Special:
+				// a special-character command is message text
 			case *Print:
 				out = append(out, phItem{base: exprBase(c.E, "XXX"), ident: "print:" + printIdent(c), node: c})
 			case *Plural:
@@ -335,6 +337,10 @@ func ModelMsg(m *Msg) *MsgInfo {
 						bBraced.WriteString(p.Text)
 					}
 				}
+			case *Special:
+				t := map[string]string{"sp": " ", "nil": "", `\n`: "\n", `\r`: "\r", `\t`: "\t", "lb": "{", "rb": "}"}[c.Name]
+				bPlain.WriteString(t)
+				bBraced.WriteString(t)
 			case *Plural:
 				head := "{" + info.PluralVar + ",plural,"
 				bPlain.WriteString(head)
